@@ -1108,20 +1108,35 @@ def evaluate(chk, scs, results, label):
         for a in an["anomalies"]:
             chk.notes.append("%s scenario %d: %s" % (label, si, a))
         for mi, e in an["envs"].items():
-            if e.get("msg") is None or "uid" not in e or e.get("idate") is None:
+            if e.get("msg") is None or "uid" not in e or e.get("idate") is None or sc.get("big"):
                 continue
             body += coq_env("e_%d_%d" % (si, mi), e)
+        taken = 0
         for fc in an["fetch"]:
             e = an["envs"].get(fc["mi"], {})
             if e.get("msg") is None or "uid" not in e or e.get("idate") is None:
                 continue
+            lim = sc.get("coq_limit")
+            if lim is not None and taken >= lim:
+                # very large responses: judged by the recogniser and the request-level oracle (value = the
+                # requested octets of the probed message); only the first [coq_limit] go through the Coq model
+                ok, why = judge_fetch(fc, e)
+                fc["judged"] = True
+                chk.cov["wire_large_cases_judged"] = chk.cov.get("wire_large_cases_judged", 0) + 1
+                chk.cov.setdefault("wire_large_response_lengths", []).append(len(fc["recv"].split(b"\r\nq")[0]) if ok else -1)
+                if not ok:
+                    chk.violation("FETCH %s on a stored message: %s" % (fc["text"], why),
+                                  {"suite": "wire", "scenario": scenario_payload(sc), "request_index": fc["k"], "command": fc["text"],
+                                   "response_length": len(fc["recv"]), "response_tail": C.latin(fc["recv"][-200:])})
+                continue
+            taken += 1
             cases.append((si, fc, e))
     # every FETCH that cannot be compared with the model (no probe of its message) and every other command
     # response (SELECT, STORE, the single-item probes themselves ...) is still judged by the recogniser
     in_cases = set((si, fc["k"]) for si, fc, _ in cases)
     for si, an in enumerate(analyses):
         for fc in an["fetch"]:
-            if (si, fc["k"]) in in_cases:
+            if (si, fc["k"]) in in_cases or fc.get("judged"):
                 continue
             fc2 = dict(fc, ast=None, lexical_only=True)
             ok, why = judge_fetch(fc2, {})
@@ -1137,7 +1152,7 @@ def evaluate(chk, scs, results, label):
             chk.violation("response to %s %s is not well-formed (literal count / parentheses / quoted string / line structure): %r" % (oc["kind"], oc["info"], oc["recv"][:200]),
                           {"suite": "wire", "scenario": scenario_payload(scs[si]), "response": C.latin(oc["recv"][:4000])},
                           )
-    stream_cases = [an["stream"] for an in analyses if an["stream"]]
+    stream_cases = [an["stream"] for sc_, an in zip(scs, analyses) if an["stream"] and not sc_.get("big")]
     rows = []
     for si, fc, e in cases:
         ls = fetch_lines(fc["recv"])
@@ -1156,7 +1171,7 @@ def evaluate(chk, scs, results, label):
     bs_cases = []
     for si, an in enumerate(analyses):
         for mi, e in an["envs"].items():
-            if e.get("msg") is not None and e.get("bs") and e["bs"].startswith(b'("'):
+            if e.get("msg") is not None and e.get("bs") and e["bs"].startswith(b'("') and not scs[si].get("big"):
                 bs_cases.append((si, mi, e))
     body += "Definition bs_cases : list (str * str) := [\n%s].\n" % ";\n".join("(%s, %s)" % (cstr(e["msg"]), cstr(e["bs"])) for _, _, e in bs_cases)
     body += "Definition bs_codes := Eval vm_compute in map bs_single_code bs_cases.\nPrint bs_codes.\n"
@@ -1248,6 +1263,33 @@ def evaluate(chk, scs, results, label):
     return nd, len(cases), len(set((fc["text"], e.get("msg")) for _, fc, e in cases if fc.get("ast") and len(fc["ast"]) > 1))
 
 
+def size_scenario():
+    """one 140 kB message and partial fetches whose response lines (text without the final CRLF) have lengths
+    65534..65538 and 131070..131074: every residue around a multiple of 65536 (a write path that sends the reply in
+    64 KiB pieces must still send all of it, CRLF included)"""
+    body = b"".join(b"line %06d abcdefghijklmnopqrstuvwxyz0123456789\r\n" % i for i in range(3000))
+    raw = b"From: big@example.com\r\nTo: alice@example.com\r\nSubject: size family\r\n\r\n" + body
+    reqs, asts = [], {}
+
+    def add(text, ast, uidm):
+        asts[len(reqs)] = ast
+        reqs.append((0, text, uidm))
+    targets = [65534, 65535, 65536, 65537, 65538, 131070, 131071, 131072, 131073, 131074]
+    for T in targets:
+        for name, secname, uidm in ((b"BODY[]", "ALL", False), (b"BODY[TEXT]", "TEXT", T % 2 == 0)):
+            if secname == "TEXT" and T not in (65535, 65536, 131071, 131072):
+                continue
+            pre = b"* 1 FETCH (" + (b"UID 1 " if uidm else b"") + name + b"<0> {%d}\r\n"
+            ks = [k for k in range(T - 60, T) if len(pre % k) + k + 1 == T]
+            if not ks:
+                continue
+            k = ks[0]
+            item = {"k": "SEC", "peek": False, "sec": (secname,), "partial": (0, k)}
+            add("(%s<0.%d>)" % (name.decode(), k), ([{"k": "UID"}] if uidm else []) + [item], uidm)
+    return {"messages": [{"raw": raw, "flags": b"", "via": "append", "multipart": False}], "mailboxes": [], "stores": [],
+            "requests": reqs, "asts": asts, "uids": {}, "big": True, "coq_limit": 0}
+
+
 def scenario_payload(sc):
     return {"messages": [{"raw": C.latin(m["raw"]), "flags": C.latin(m.get("flags", b"")), "via": m.get("via", "append")} for m in sc["messages"]],
             "mailboxes": [C.latin(b) for b in sc["mailboxes"]], "stores": [C.latin(s) for s in sc.get("stores", [])],
@@ -1274,13 +1316,15 @@ def run(chk):
     n_host = 2 if quick else 12
     scs = [gen_scenario(chk, False) for _ in range(n_main)]
     hostile = [gen_scenario(chk, True) for _ in range(n_host)]
-    everything = corpus + scs + hostile
+    sizes = [size_scenario()]
+    everything = corpus + scs + hostile + sizes
     results = C.run_many([build_scenario(sc)[0] for sc in everything], workers=8, timeout=600)
     nd = run_calls(chk, 150 if quick else 1500)
     tot_cases = 0
     nontriv = 0
     for label, lo, hi in (("corpus", 0, len(corpus)), ("main", len(corpus), len(corpus) + len(scs)),
-                          ("hostile", len(corpus) + len(scs), len(everything))):
+                          ("hostile", len(corpus) + len(scs), len(corpus) + len(scs) + len(hostile)),
+                          ("size", len(corpus) + len(scs) + len(hostile), len(everything))):
         if hi <= lo:
             continue
         for a in range(lo, hi, 20):
